@@ -38,6 +38,9 @@ pub fn catch<T>(f: impl FnOnce() -> T) -> Result<T, String> {
 
 /// Silence the default panic hook (cases run under `catch`; a panic is an outcome, not noise).
 pub fn quiet_panics() {
+    if std::env::var_os("KVH_LOUD").is_some() {
+        return;
+    }
     std::panic::set_hook(Box::new(|_| {}));
 }
 
